@@ -15,6 +15,7 @@ Every constructor is a closed formula; the model is that formula.
 -/
 import NumqiModel.Scalar
 import NumqiModel.Dicke
+import NumqiModel.Lie
 
 namespace Numqi.Catalogue
 
@@ -316,6 +317,31 @@ def min4x4Orthonormal : Bool :=
   (List.range 8).all fun i => (List.range 8).all fun j => i == j ||
     dotList ((min4x4A.getD i ⟨z 0, []⟩).entries) ((min4x4A.getD j ⟨z 0, []⟩).entries) == (0 : Z2) ||
     dotList ((min4x4B.getD i ⟨z 0, []⟩).entries) ((min4x4B.getD j ⟨z 0, []⟩).entries) == (0 : Z2)
+
+/-! ### six-parameter UPB of `3 × 3` (`upb.py:135-162`) -/
+
+section sixparam
+open Numqi.Lie
+variable {α : Type} [Add α] [Sub α] [Mul α] [Neg α] [Div α] [Zero α] [One α]
+
+/-- the two local vectors that depend on the parameters: `cg, sg = cos γ, sin γ`, `ct, st = cos θ, sin θ`, `e = exp(iφ)`,
+`nrm = max(√(cos²γ + sin²γ cos²θ), 1e-12)` -/
+def sixRowMixed (cg sg ct st : α) (e : Cx α) : List (Cx α) := [Cx.ofReal (sg * st), Cx.smul cg e, Cx.ofReal (-(sg * ct))]
+def sixRowLast (cg sg ct nrm : α) (e : Cx α) : List (Cx α) :=
+  [0, ⟨(Cx.smul (sg * ct) e).re / nrm, (Cx.smul (sg * ct) e).im / nrm⟩, Cx.ofReal (cg / nrm)]
+def sixRowTheta (ct st : α) : List (Cx α) := [Cx.ofReal ct, 0, Cx.ofReal st]
+
+/-- party A: `e0, e1, (cθ,0,sθ), mixed, last` -/
+def sixparamA (cg sg ct st nrm : α) (e : Cx α) : List (List (Cx α)) :=
+  [[1, 0, 0], [0, 1, 0], sixRowTheta ct st, sixRowMixed cg sg ct st e, sixRowLast cg sg ct nrm e]
+/-- party B: `e1, mixed, e0, (cθ,0,sθ), last` -/
+def sixparamB (cg sg ct st nrm : α) (e : Cx α) : List (List (Cx α)) :=
+  [[0, 1, 0], sixRowMixed cg sg ct st e, [1, 0, 0], sixRowTheta ct st, sixRowLast cg sg ct nrm e]
+
+/-- Hermitian inner product `Σ conj(u_t) v_t` -/
+def hdot (u v : List (Cx α)) : Cx α := (u.zip v).foldl (fun acc q => acc + q.1.conj * q.2) 0
+
+end sixparam
 
 /-! ### tetrahedron POVM (`utils.py:361-369`) -/
 
